@@ -49,7 +49,9 @@ def classify(seg, exp, stage):
         elif "did not address" in why:
             sig["class"] = "foreign-key-changed"
         elif "twin" in why:
-            sig["class"] = "leak-or-partial"
+            # the twin skipped the erroring vectors: a difference means one of them changed the store
+            # (seen per vector as "error reply but the store changed", per apply group only here)
+            sig["class"] = "err-changed"
         elif "read command" in why:
             sig["class"] = "read-changed"
         elif "probe" in why:
